@@ -860,7 +860,11 @@ func (c *Ctx) ruleMalformedEndsLink(rr *RuleRep) {
 			rr.Bad(tn+".Parse", token.NoPos, "parser not found")
 			continue
 		}
-		flag := p.Params[1]
+		flag, _ := parseParams(p)
+		if flag == nil {
+			rr.Bad(tn+".Parse", p.Pos(), "no parameter carrying the flag byte of the fixed header")
+			continue
+		}
 		okFlag := false
 		for _, blk := range p.Blocks {
 			iff := blockIf(blk)
